@@ -14,3 +14,5 @@ pub mod scn_conc;
 pub mod scn_c14;
 pub mod scn_seq;
 pub mod scn_c18;
+#[cfg(feature = "serde")]
+pub mod scn_c20;
